@@ -274,6 +274,18 @@ def _method_events(args):
 KNOWN_INTERNAL = {}
 
 
+def _corrupt(ev, rnd):
+    """binding control: the observed outcome replaced by an internal error / the returned location made ill-formed"""
+    if ev[0] in ("ctor", "call"):
+        ev[4] = ["x", rnd.choice(["AttributeError", "IndexError", "KeyError", "StopIteration"])]
+        return ev
+    if ev[0] == "result" and ev[3][0]:
+        b = ev[3][0][0]
+        ev[3][0][0] = [b[1] + 1, b[0]]
+        return ev
+    return None
+
+
 def _key(ev, clause):
     if clause == "call:internal-error" and ev[0] == "call":
         k = "%s.%s:%s" % (ev[1], ev[2], ev[4][1])
@@ -298,7 +310,7 @@ def run(chk):
     evs = [e for p in parts for e in p]
     parts = pmap(_method_events, [(chk.seed * 1009 + i, 2 if quick else 25, 6 if quick else 14) for i in range(32)])
     evs += [e for p in parts for e in p]
-    chk.validate("C19Trace", evs, shard=6000, label="validity", keyfn=_key)
+    chk.validate("C19Trace", evs, shard=6000, label="validity", keyfn=_key, corrupt=_corrupt)
     chk.nontrivial = len({json.dumps(e[1:4]) for e in evs})
     chk.extra["fault_cases_from_tlc"] = len([c for c in cases if c[1] != "random"])
     chk.extra["random_ctor_tuples"] = len([c for c in cases if c[1] == "random"])
